@@ -23,6 +23,19 @@ NEEDS = {
  'C18': ('F.downscale 4-D branch upsamples with the down interpolation', 'Downscale on an H x W x D x C image with different down / up interpolation'),
  'C19': ('union_of_bboxes erodes z with the height', 'BBoxSafeRandomCrop / RandomSizedBBoxSafeCrop with erosion_rate > 0 on boxes whose height differs from their depth'),
  'C20': ('CoarseDropout draws x1 from the height range', 'CoarseDropout on a volume with rows != cols'),
+ # ---- second wave (fresh sub-agents told to stay away from the first change of the property) ----
+ 'C01b': ('CropAndPad.apply_to_mask passes (cols, rows, slices) as the frame to resize back to', 'CropAndPad(keep_size=True) with a non-zero amount, a mask-type target, rows != cols'),
+ 'C02b': ('CropAndPad.get_params_dependent_on_targets drops the depth from the "nothing cropped" test', 'CropAndPad that crops only the close / far faces (px 6-tuple or a small percent on a deep volume), boxes'),
+ 'C06b': ('RandomSizedBBoxSafeCrop.apply resizes with self.interpolation instead of the interpolation keyword', 'RandomSizedBBoxSafeCrop with image order >= 1, a crop that is actually resized, a mask with >= 3 labels'),
+ 'C07b': ('PadIfNeeded random position: d_back = w_pad - d_front', 'PadIfNeeded(position="random") with different total pads along width and depth'),
+ 'C12b': ('GaussNoise(per_channel=False) expands the noise only when the image has more than one channel', 'GaussNoise(per_channel=False) on an H x W x D x 1 image'),
+ 'C13b': ('BboxParams._to_dict writes min_depth from min_height', 'ReplayCompose with bbox_params whose min_depth != min_height and a box between the two thresholds'),
+ 'C14b': ('Compose._to_dict writes is_check_shapes from is_check_args', 'top-level Compose(is_check_shapes=False) serialised and reloaded, or any nested Compose'),
+ 'C15b': ('OneOrOther forwards force_apply to its second child instead of forcing it', 'OneOrOther whose second child has p < 1, second branch drawn'),
+ 'C16b': ('CropAndPad.apply_to_dicom passes the row factor as scale_x and the column factor as scale_y', 'CropAndPad(keep_size=True) with different row and column factors, dicom target'),
+ 'C18b': ('unsharp_mask compares |residual| >= threshold', 'UnsharpMask(threshold=0.0) on a volume with flat regions thicker than the kernel radius'),
+ 'C19b': ('RandomCropNearBBox.apply_to_bbox clamps x_max with rows and y_max with cols', 'RandomCropNearBBox on a frame with rows != cols whose shifted window passes min(rows, cols)'),
+ 'C20b': ('GridDropout loops k over range(height // unit_depth + 1)', 'GridDropout on a volume whose depth exceeds its height by a grid unit or more'),
 }
 detected = json.load(open(os.path.join(V, 'seeded', 'detected.json'))) if os.path.exists(os.path.join(V, 'seeded', 'detected.json')) else {}
 for pid, (what, needs) in sorted(NEEDS.items()):
@@ -38,13 +51,13 @@ for pid, (what, needs) in sorted(NEEDS.items()):
     conf = os.path.join(V, 'work', 'confirm', pid + '.txt')
     confirm = open(conf).read().splitlines() if os.path.exists(conf) else []
     meta = {
-        'property': pid, 'change': what, 'needs_to_manifest': needs,
+        'property': pid[:3], 'change': what, 'needs_to_manifest': needs,
         'produced_by': 'fresh sub-agent given only the property text and a scratch worktree',
         'what_i_ran': ['git worktree add (scratch, outside /repo and /verif) at /repo HEAD',
                        'PYTHONPATH=<worktree> python demo.py            -> exit 0 without the change',
                        'git apply patch.diff; python demo.py             -> exit 1 with the change',
                        'python -m pytest -q (whole suite) with the change -> failing set identical to the baseline (tools/baseline_failed.txt)',
-                       'git -C /repo apply seeded/%s/patch.diff; /verif/check %s quick; git -C /repo checkout -- .' % (pid, pid)],
+                       'git -C /repo apply seeded/%s/patch.diff; /verif/check %s quick; git -C /repo checkout -- .' % (pid, pid[:3])],
         'confirmation_log_tail': confirm[-3:],
         'detected_by': detected.get(pid, 'not yet run'),
     }
